@@ -2,6 +2,7 @@ package h
 
 import (
 	"fmt"
+	"net"
 	"strings"
 	"time"
 
@@ -27,6 +28,22 @@ func stopOffset(rs []wrec) int {
 		off += 4 + len(r.body)
 	}
 	return -1
+}
+
+// serverNames: server records that are no IP literal (host names, the empty name, zoned and
+// bracketed literals, address with port, near-misses of dotted quads).
+var serverNames = []string{
+	"time.example.net", "localhost", "ntp1", "", "fe80::1%eth0", "127.0.0.1%lo", "127.0.0.1:123", "[::1]",
+	" 10.0.0.1", "10.0.0.256", "10.0.0.1.", "10.0.1", "2130706433", "ntp.example.invalid.", "xn--nxasmq6b.example",
+}
+
+func poolTok(ans string) string {
+	for _, f := range strings.Fields(ans) {
+		if strings.HasPrefix(f, "pool=") {
+			return f[5:]
+		}
+	}
+	return ""
 }
 
 type fexp struct {
@@ -83,13 +100,21 @@ func genFetcher(c *lib.Ctx, overQUIC bool, nh int) {
 		prevFailed := false
 		idx := 0
 		steps := 3 + r.Intn(8)
+		// the pool as the implementation itself reported it last (f.new: empty)
+		lastPool := "[]"
+		forceFetch := 0
 		for s := 0; s < steps; s++ {
-			if len(st.pool) > 0 && r.Chance(12) || r.Chance(3) {
+			if forceFetch > 0 {
+				forceFetch--
+			} else if len(st.pool) > 0 && r.Chance(12) || r.Chance(3) {
 				ck := r.Bytes(1 + r.Intn(20))
 				c.Count("op:store")
 				got := do("f.store " + lib.Hex(ck))
 				st.pool = append(append([][]byte{}, st.pool...), ck)
 				prevFailed = false
+				if f := strings.Fields(got); len(f) == 2 && strings.HasPrefix(f[1], "pool=") {
+					lastPool = f[1][5:]
+				}
 				if want := "ok pool=" + hexList(st.pool); got != want {
 					c.Fail("c20:store-contract", "StoreCookie does not append to the pool", hist, map[string]any{"want": want, "got": got})
 				}
@@ -99,6 +124,39 @@ func genFetcher(c *lib.Ctx, overQUIC bool, nh int) {
 			// ---- script for this call
 			nck := 1 + r.Intn(8)
 			rs := baseMsg(r, nck, true)
+			// the NTP server the exchange names is network input of any shape (RFC 8915 allows a
+			// host name): names that are no IP literal, with several cookies, followed by further
+			// calls on the same fetcher. The fetcher hands the name on as it is; what a FetchData
+			// does with it must not depend on whether an exchange took place in that very call.
+			namedNonIP := false
+			if len(st.pool) == 0 && r.Chance(40) {
+				namedNonIP = true
+				name := serverNames[r.Intn(len(serverNames))]
+				if nck < 2 {
+					nck = 2 + r.Intn(5)
+					rs = baseMsg(r, nck, true)
+				}
+				replaced := false
+				for i := range rs {
+					if rs[i].kind == "sv" {
+						rs[i] = mk("sv", rs[i].raw, []byte(name))
+						replaced = true
+					}
+				}
+				if !replaced {
+					x := mk("sv", critBit(r, 6, 30), []byte(name))
+					rs = append(rs[:2], append([]wrec{x}, rs[2:]...)...)
+				}
+				c.Count("script:server-name-not-an-ip-literal")
+				if net.ParseIP(name) != nil {
+					panic("serverNames: " + name + " is an IP literal")
+				}
+				// at least two further FetchData calls follow (no StoreCookie in between)
+				forceFetch = 2
+				if steps < s+3 {
+					steps = s + 3
+				}
+			}
 			alpn := "ntske/1"
 			closeMode := "graceful"
 			drop := "no"
@@ -109,6 +167,9 @@ func genFetcher(c *lib.Ctx, overQUIC bool, nh int) {
 			}
 			if len(st.pool) == 0 && prevFailed && r.Chance(50) {
 				kind = 0 // retry that should succeed
+			}
+			if namedNonIP && r.Chance(70) {
+				kind = 0
 			}
 			cookiesThenInsert := func(x wrec) {
 				// after at least one cookie, before the end
@@ -284,6 +345,8 @@ func genFetcher(c *lib.Ctx, overQUIC bool, nh int) {
 				c.Fail("c20:ntp-server-chosen", "after a successful exchange NTP requests would not go to the server named in the exchange / by default the key-exchange host",
 					hist, map[string]any{"got": strings.Join(strings.Fields(got)[2:4], " "), "want": strings.Join(strings.Fields(want)[2:4], " "), "key_exchange_host": host})
 			} else if prevFailed && !strings.Contains(got, "exch=true") {
+				// whatever made the previous FetchData fail (the exchange itself or anything
+				// FetchData does around it): the attempt that follows opens a new connection
 				c.Count("oracle:no-new-exchange-after-failure")
 				c.Fail("c20:failed-exchange-leaves-state",
 					"after a failed key exchange the next FetchData opened no new connection and handed out leftover data",
@@ -291,6 +354,20 @@ func genFetcher(c *lib.Ctx, overQUIC bool, nh int) {
 			} else if got != want {
 				c.Fail("c20:fetch-contract", "FetchData verdict / data / pool differ from the contract evaluated on the script",
 					hist, map[string]any{"got": got, "want": want})
+			}
+			// a failed FetchData leaves the pool as it was (read off the implementation's own
+			// answers; independent of the contract above and of the cause of the failure)
+			if gp := poolTok(got); gp != "" {
+				if strings.HasPrefix(got, "err") && gp != lastPool {
+					c.Count("oracle:failed-fetch-changed-pool")
+					c.Fail("c20:failed-fetch-leaves-state",
+						"a FetchData that reported failure changed the cookie pool: something of the failed attempt is kept and would be used by a later request",
+						hist, map[string]any{"got": got, "pool_before": lastPool, "pool_after": gp})
+				}
+				lastPool = gp
+			}
+			if prevFailed {
+				c.Count("fetch:after-failed-fetch")
 			}
 			prevFailed = strings.HasPrefix(got, "err")
 			if strings.HasPrefix(got, "panic") {
